@@ -632,6 +632,30 @@ def intoIterOp (c : Cfg) (v : VS) (take back : Nat) (forget : Bool) (w : W) : W 
     | (w, some _) => (w, none)
     | (w, none) => (w, some (xs ++ ys))
 
+/-- `into_iter().nth(n)`: `IntoIter` does not override `nth`, so this is `core`'s default — `n` × `next()`
+with the item dropped at once, then one more `next()` whose item goes to the caller — followed by the drop
+of the `IntoIter`.  A panicking destructor of a skipped item unwinds through `IntoIter::drop`, which
+drops what is left (`for_each(drop)`; one panic per call).  `none` = a destructor panicked. -/
+def intoIterNthOp (c : Cfg) (v : VS) (n : Nat) (w : W) : W × Option (List Elem) :=
+  let k := min n v.len
+  let (skipped, w) := readRange v 0 k w
+  match dropEach c skipped w with
+  | (w, some left) =>
+    let (rest, w) := readRange v k v.len w
+    let (w, _) := dropEach c (left ++ rest) w
+    (w, none)
+  | (w, none) =>
+    if n < v.len then
+      match v.read n with
+      | none => (w.flag "into_iter read an uninitialised slot", some [])
+      | some e =>
+        let w := w.moved e
+        let (rest, w) := readRange v (n + 1) v.len w
+        match dropEach c rest w with
+        | (w, some _) => (w, none)
+        | (w, none) => (w, some [e])
+    else (w, some [])
+
 /-- `into_bump_slice` (vec.rs:856): the contents, no event -/
 def intoBumpSlice (v : VS) : List Elem := v.owned
 
